@@ -33,6 +33,10 @@ type wiring struct {
 	routines []*ssa.Function
 }
 
+// spawnArgCell maps a parameter of a named function that start spawns (and nothing else calls) to the variable of start whose
+// value is passed for it in the go statement.
+var spawnArgCell = map[*ssa.Parameter]*ssa.Alloc{}
+
 func timerUses(fn *ssa.Function) []timerUse {
 	var out []timerUse
 	an.AllInstrs(fn, func(in ssa.Instruction) {
@@ -44,7 +48,11 @@ func timerUses(fn *ssa.Function) []timerUse {
 		if cal == nil || cal.Signature.Recv() == nil || !an.TypeIs(cal.Signature.Recv().Type(), "utils", "Timer") || len(cc.Args) == 0 {
 			return
 		}
-		out = append(out, timerUse{Method: cal.Name(), Cell: an.CellOf(cc.Args[0]), Call: in})
+		cell := an.CellOf(cc.Args[0])
+		if p, ok := cc.Args[0].(*ssa.Parameter); ok && cell == nil {
+			cell = spawnArgCell[p] // the timer variable of start handed to a named goroutine function at its only call site
+		}
+		out = append(out, timerUse{Method: cal.Name(), Cell: cell, Call: in})
 	})
 	return out
 }
@@ -86,6 +94,26 @@ func newWiring(c *core.Ctx) *wiring {
 		if g, ok := in.(*ssa.Go); ok {
 			if f := an.StaticCallee(&g.Call); f != nil {
 				w.routines = append(w.routines, f)
+				if f.Parent() == nil {
+					// a named function: bind its parameters to start's variables if this go statement is its only use
+					uses := 0
+					for _, fn := range s.allFuncs() {
+						an.AllInstrs(fn, func(i2 ssa.Instruction) {
+							for _, op := range i2.Operands(nil) {
+								if op != nil && *op == ssa.Value(f) {
+									uses++
+								}
+							}
+						})
+					}
+					if uses == 1 {
+						for i, a := range g.Call.Args {
+							if cell := an.CellOf(a); cell != nil && i < len(f.Params) {
+								spawnArgCell[f.Params[i]] = cell
+							}
+						}
+					}
+				}
 			}
 		}
 	})
@@ -214,7 +242,16 @@ func checkTimerType(c *core.Ctx, rule string) {
 			continue
 		}
 		if p.Has(fmt.Sprintf("%s == %d", selIdx, tickIdx)) {
-			if p.Has("time.Until(t.lastUpdate.Add(t.timeout)) <= 0") {
+			expired := p.Has("time.Until(t.lastUpdate.Add(t.timeout)) <= 0")
+			for _, a := range p.Atoms {
+				// the same comparison made on the result of a side-effect-free helper that returns that expression
+				if bo, ok := a.Val.(*ssa.BinOp); ok && a.Rel == "<=" && a.R == "0" {
+					if ex, ok := an.ExpandGetter(bo.X, modulePrefix); ok && ex == "time.Until(t.lastUpdate.Add(t.timeout))" {
+						expired = true
+					}
+				}
+			}
+			if expired {
 				nExp++
 			} else {
 				bad = append(bad, "returns on a tick without (time.Until(lastUpdate + timeout) <= 0): "+p.CondString())
@@ -228,8 +265,20 @@ func checkTimerType(c *core.Ctx, rule string) {
 	// not-yet-expired ticks loop back
 	loops := false
 	for _, p := range paths {
-		if p.Loop && p.Has(fmt.Sprintf("%s == %d", selIdx, tickIdx)) && p.Has("0 < time.Until(t.lastUpdate.Add(t.timeout))") {
+		if !p.Loop || !p.Has(fmt.Sprintf("%s == %d", selIdx, tickIdx)) {
+			continue
+		}
+		if p.Has("0 < time.Until(t.lastUpdate.Add(t.timeout))") {
 			loops = true
+		}
+		for _, a := range p.Atoms {
+			if bo, ok := a.Val.(*ssa.BinOp); ok && a.Rel == "<" && a.L == "0" {
+				for _, side := range []ssa.Value{bo.X, bo.Y} {
+					if ex, ok := an.ExpandGetter(side, modulePrefix); ok && ex == "time.Until(t.lastUpdate.Add(t.timeout))" {
+						loops = true
+					}
+				}
+			}
 		}
 	}
 	switch {
